@@ -22,7 +22,29 @@ PROP = {
 }
 
 TEXT = {
-    "technique": "TBD",
-    "level": "TBD",
-    "note": "TBD",
+    "technique": "stateful property-based testing: random alloc/free/realloc histories against a shadow map of the live "
+                 "blocks {address, size, fill pattern} for pool_head, igris::pool, static_object_pool<Tracked,N> and "
+                 "the lin_malloc/realloc/free heap (compiled from the tree with its entry points renamed lin_*, on a "
+                 "harness-provided arena), bounded exhaustive enumeration of short heap histories, igris' own asserts "
+                 "and ASan/UBSan (red zones around arena and zones) as additional oracles, libFuzzer in thorough",
+    "level": "Generated-input exploration: every block handed out is checked to lie inside its arena/zone, on a cell "
+             "boundary (pools), pointer-aligned and disjoint from every live block; it is filled with a "
+             "position-dependent pattern that is verified before its free/realloc and at the end of the history; "
+             "realloc must keep min(old,new) bytes; pools must serve exactly `capacity` requests before NULL, serve "
+             "again after a free, and report pool_avail()/avail()/room() == capacity - live after every step, with "
+             "cell_is_allocated()/iteration agreeing with the model; Tracked constructions and destructions must "
+             "balance; after the final free-all (LIFO/FIFO/random) the heap must be back at __brkval == arena start "
+             "with an empty free list. Heap histories: up to 300 steps, sizes 0..4096 with the boundary sizes of the "
+             "statement, at most 90 live blocks; in addition every history of length <= 5 over 4 block slots and of "
+             "length 6 over 3 slots (thorough: <= 6 and 7) with sizes {8,64,200,0} is run. Absence of defects beyond "
+             "the explored histories is not established.",
+    "note": "Trusted: the harness' shadow model, clang ASan/UBSan, the host's __WORDSIZE (64: the shim rounds every "
+            "request up to a multiple of 64 bytes here, so only that granule is exercised). The shim has no "
+            "end-of-arena check; the generator keeps live demand below half of the 256 KiB arena and never asks for "
+            "more than is left above the break. A zero-size request may answer NULL. Known findings (see "
+            "known_findings.json) are handled narrowly: realloc(p,0) of a non-empty block is not issued; the "
+            "allocation counter is put back after a shrinking realloc lowered it (the shrink path itself stays under "
+            "test); igris::pool::get() on an exhausted pool is only issued as the very last request, after which "
+            "room() is no longer compared. Not covered: concurrent use (syslock), igris::pool::put of foreign "
+            "pointers, arena exhaustion.",
 }
